@@ -231,7 +231,7 @@ func c09ExhaustiveCases(t core.Tier) int {
 
 func c09Sampled(t core.Tier) int {
 	if t == core.Thorough {
-		return 150000
+		return 1000000
 	}
 
 	return 6000
